@@ -43,10 +43,11 @@ ASSUMPTIONS = [
 FLOORS = {"quick": {"compared": 4000, "compared_ok": 1200,
                     "compared_reject": 800, "unbalanced": 400,
                     "define_texts": 500, "repeated_include": 2000,
-                    "repeated_include_ok": 300, "open_ended_fragment": 500},
+                    "repeated_include_ok": 300, "open_ended_fragment": 500,
+                    "import_texts": 300},
           "thorough": {"compared": 300000, "compared_ok": 100000,
                        "compared_reject": 100000, "unbalanced": 40000,
-                       "define_texts": 40000}}
+                       "define_texts": 40000, "import_texts": 6000}}
 N_MODELS = {"quick": 700, "thorough": 20000}
 TEXTS = {"quick": 8, "thorough": 20}
 N_DEFINE = {"quick": 1500, "thorough": 80000}
@@ -197,6 +198,9 @@ def compare(ctx, schema, corpus, text, case_extra, rng, dirpath, tag=""):
                            {"files": bad.texts(), "error": o[5]}, 1)
 
 
+N_IMPORT_WORLDS = {"quick": 160, "thorough": 3200}
+
+
 def define_text(rng):
     steps = [rng.choice(c05.STEPS) for _ in range(rng.randint(2, 8))]
     lines = []
@@ -237,6 +241,36 @@ def run_shard(ctx):
                 text = texts.render(root)
         compare(ctx, p.schema, "family", text, {"model": p.model}, rng,
                 dirpath, ",".join(sorted(f["kind"] for f in p.faults)))
+    # texts with %import lines (C12's generated component packages): a
+    # vocabulary extension made inside a fragment stays in force after the
+    # fragment, one made before it holds inside it
+    from . import c12
+    from ..gen import packages
+    space = packages.PackageSpace(os.path.join(ctx.tmp, "pkgs"),
+                                  "c06s%d" % ctx.shard)
+    try:
+        for wi in range(N_IMPORT_WORLDS[ctx.tier] // ctx.nshards):
+            wrng = ctx.rng("world", wi)
+            try:
+                w = c12.World(wrng, space)
+            except Exception:  # noqa
+                ctx.res.count("world_failed")
+                continue
+            if not w.components:
+                continue
+            for _ in range(12):
+                text, _k = c12.gen_text(wrng, w)
+                if "%import" not in text:
+                    continue
+                ctx.res.count("import_texts")
+                compare(ctx, w.schema, "imports", text,
+                        {"xml": w.xml, "model": w.model,
+                         "components": [[n, ts] for n, ts in w.components],
+                         "imports": dict(w.imports),
+                         "schema_level": list(w.schema_level)
+                         if w.schema_level else None}, rng, dirpath)
+    finally:
+        space.close()
     dschema = cc.load_schema(DEFINE_SCHEMA)
     for i in range(N_DEFINE[ctx.tier] // ctx.nshards):
         ctx.res.count("define_texts")
@@ -244,7 +278,49 @@ def run_shard(ctx):
                 {"schema": "defines"}, rng, dirpath)
 
 
+def replay_imports(ctx, case):
+    import io
+    import re
+    import ZConfig
+    from ..gen import packages
+    space = packages.PackageSpace(os.path.join(ctx.tmp, "pkgs"), "c06r")
+    try:
+        base = re.search(r"<import package=\"([^\"]+)\" file=\"abstract",
+                         case["xml"])
+        if base:
+            space.write(base.group(1), {"abstract.xml":
+                                        packages.abstract_xml(case["model"])})
+        comps = list(case["components"])
+        if case.get("schema_level"):
+            comps.append(case["schema_level"])
+        for n, ts in comps:
+            space.write(n, {"component.xml": packages.component_xml(
+                ts, base.group(1) if base else None,
+                case.get("imports", {}).get(n, ()))})
+        schema = ZConfig.loadSchemaFile(io.StringIO(case["xml"]))
+        d = os.path.join(ctx.tmp, "c06r")
+        for rel, text in case["files"].items():
+            p = os.path.join(d, *rel.split("/"))
+            os.makedirs(os.path.dirname(p), exist_ok=True)
+            with open(p, "w") as f:
+                f.write(text)
+        o_cut = load_path(schema, os.path.join(d, "b", "main.conf"))
+        if case.get("unbalanced"):
+            if o_cut[0] == "ok":
+                ctx.res.violate("unbalanced-fragment-accepted", case,
+                                "rejected", "accepted")
+            return
+        o_in = outcome.load_text(schema, case["text"])
+        if key(o_in) != key(o_cut):
+            ctx.res.violate("include-differs-from-inlined", case,
+                            list(o_in[:6]), list(o_cut[:6]))
+    finally:
+        space.close()
+
+
 def replay(ctx, case):
+    if case.get("corpus") == "imports":
+        return replay_imports(ctx, case)
     if "model" in case:
         schema = cc.load_schema(family.render_xml(case["model"]))
     else:
